@@ -1,6 +1,6 @@
 PROP = {
     "id": "C01",
-    "tie2": ["Tie2Secs2"],
+    "tie2": ["Tie2Secs2", "Tie2Secs2Leaves", "Tie2Secs2Decode"],
     "harness": "c01",
     "driver": "c01",
     "n_quick": 3000,
